@@ -877,11 +877,18 @@ def judge_apply(case: dict[str, Any]) -> list[tuple[str, str]]:
         fn = apply_fn(bt, case["f"])
         if case["split"] is not None and not isinstance(arg, sympy.Eq):
             return [("__eq_evaluated__", str(arg))]
-        want_l, want_r = fn(lhs), fn(rhs if case["split"] is not None else sympy.S.Zero)
     except _Hang:
         raise
     except Exception as exc:  # pylint: disable=broad-except
         return [("__build_failed__", f"{type(exc).__name__}: {exc}")]
+    try:
+        want_l, want_r = fn(lhs), fn(rhs if case["split"] is not None else sympy.S.Zero)
+    except _Hang:
+        raise
+    except Exception as exc:  # pylint: disable=broad-except
+        # f itself does not work on a side (e.g. VectorNorm -> Abs(-dot - dot) -> RecursionError inside SymPy,
+        # see notes/C16.md): apply cannot be blamed for it; counted
+        return [(f"__f_raises_{type(exc).__name__}__", str(exc)[:100])]
     try:
         ret = apply(arg, fn)
     except _Hang:
